@@ -443,6 +443,11 @@ func (stmt *Statement) BuildCondition(query interface{}, args ...interface{}) []
 				if len(args) == 1 {
 					switch reflectValue.Kind() {
 					case reflect.Slice, reflect.Array:
+						if reflectValue.Kind() == reflect.Slice && reflectValue.Type().Elem() == reflect.TypeOf(uint8(0)) {
+							// a []byte (also as the Value() of a driver.Valuer) is one key, not a list of keys
+							break
+						}
+
 						// optimize reflect value length
 						valueLen := reflectValue.Len()
 						values := make([]interface{}, valueLen)
